@@ -573,6 +573,99 @@ fn clause_script_cells(t: &mut Tally<'_>) {
     }
 }
 
+/// One step of a clause script for Write::write: accepts exactly the buffers starting with byte `K`
+/// and takes that one byte.
+fn write_step<const K: u8>() -> impl Clause {
+    use unimock::mock::std::io::WriteMock;
+    fn one(_: &mut Unimock, _: &[u8]) -> io::Result<usize> {
+        Ok(1)
+    }
+    WriteMock::write.next_call(matching!(([b, ..]) if *b == K)).answers(&one)
+}
+
+/// Scripts written as one flat tuple of n clauses, n = 2..16 (a script of n one-byte steps driven
+/// by write_all over n distinct bytes: any two exchanged steps refuse the call), and scripts in
+/// which a counted any-order clause is listed before the ordered steps.
+fn flat_script_cells(t: &mut Tally<'_>) {
+    use unimock::mock::std::io::WriteMock;
+    let mut cell = |name: String, n: usize, got: Result<String, String>| {
+        t.ctx.tick();
+        t.stats.add("traces_validated_against_impl", 1);
+        t.stats.add("transitions", n as u64);
+        t.stats.add("clause_script_cells", 1);
+        // the plain struct: a script of n one-byte answers
+        let sh = script(&vec![Ans::N(1); n]);
+        let bytes: Vec<u8> = (0..n as u8).collect();
+        let res = PlainWrite(sh.clone()).write_all(&bytes);
+        let want = format!("{} calls={} Ok(())", show(&res), log_of(&sh).len());
+        if got.as_ref() != Ok(&want) {
+            t.ctx.violation(
+                &format!("clause-script:{name}"),
+                &format!("{name}: a plain implementation gives {want:?}, the mock gave {got:?}"),
+                J::obj().set("what", name.as_str()),
+            );
+        }
+    };
+    fn drive(u: Unimock, n: usize) -> String {
+        let mut u = u;
+        let bytes: Vec<u8> = (0..n as u8).collect();
+        let res = u.write_all(&bytes);
+        let calls = unimock::verif::snapshot(&u).method("Write::write").map(|m| m.patterns.iter().map(|p| p.count).sum::<usize>()).unwrap_or(0);
+        let verdict = catch(move || drop(u));
+        format!("{} calls={calls} {verdict:?}", show(&res))
+    }
+    macro_rules! flat {
+        ($n:expr; $($k:literal),*) => {
+            cell(format!("Write::write_all/flat tuple of {} clauses", $n), $n, catch(|| drive(Unimock::new(($(write_step::<$k>(),)*)), $n)));
+        };
+    }
+    flat!(2; 0, 1);
+    flat!(3; 0, 1, 2);
+    flat!(4; 0, 1, 2, 3);
+    flat!(5; 0, 1, 2, 3, 4);
+    flat!(6; 0, 1, 2, 3, 4, 5);
+    flat!(7; 0, 1, 2, 3, 4, 5, 6);
+    flat!(8; 0, 1, 2, 3, 4, 5, 6, 7);
+    flat!(9; 0, 1, 2, 3, 4, 5, 6, 7, 8);
+    flat!(10; 0, 1, 2, 3, 4, 5, 6, 7, 8, 9);
+    flat!(11; 0, 1, 2, 3, 4, 5, 6, 7, 8, 9, 10);
+    flat!(12; 0, 1, 2, 3, 4, 5, 6, 7, 8, 9, 10, 11);
+    flat!(13; 0, 1, 2, 3, 4, 5, 6, 7, 8, 9, 10, 11, 12);
+    flat!(14; 0, 1, 2, 3, 4, 5, 6, 7, 8, 9, 10, 11, 12, 13);
+    flat!(15; 0, 1, 2, 3, 4, 5, 6, 7, 8, 9, 10, 11, 12, 13, 14);
+    flat!(16; 0, 1, 2, 3, 4, 5, 6, 7, 8, 9, 10, 11, 12, 13, 14, 15);
+    // a nested script: 16 steps as a pair of flat tuples of 8
+    cell(
+        "Write::write_all/(8 clauses, 8 clauses)".to_string(),
+        16,
+        catch(|| {
+            drive(
+                Unimock::new((
+                    (write_step::<0>(), write_step::<1>(), write_step::<2>(), write_step::<3>(), write_step::<4>(), write_step::<5>(), write_step::<6>(), write_step::<7>()),
+                    (write_step::<8>(), write_step::<9>(), write_step::<10>(), write_step::<11>(), write_step::<12>(), write_step::<13>(), write_step::<14>(), write_step::<15>()),
+                )),
+                16,
+            )
+        }),
+    );
+    // "flush exactly once" (any order) listed before, between and after the ordered write steps
+    for pos in 0..3usize {
+        let got = catch(|| {
+            let flush = || WriteMock::flush.some_call(matching!()).returns(Ok(()));
+            let mut u = match pos {
+                0 => Unimock::new((flush(), write_step::<0>(), write_step::<1>())),
+                1 => Unimock::new((write_step::<0>(), flush(), write_step::<1>())),
+                _ => Unimock::new((write_step::<0>(), write_step::<1>(), flush())),
+            };
+            let res = u.write_all(&[0, 1]).and_then(|_| u.flush());
+            let calls = unimock::verif::snapshot(&u).method("Write::write").map(|m| m.patterns.iter().map(|p| p.count).sum::<usize>()).unwrap_or(0);
+            let verdict = catch(move || drop(u));
+            format!("{} calls={calls} {verdict:?}", show(&res))
+        });
+        cell(format!("Write::write_all + flush/counted any-order flush listed at position {pos}"), 2, got);
+    }
+}
+
 // ------------------------------------------------------------------------------------- driver
 
 pub struct Tally<'a> {
@@ -1008,6 +1101,7 @@ fn main() {
     mocked_provided_cells(&mut t);
     lifecycle_cells(&mut t);
     clause_script_cells(&mut t);
+    flat_script_cells(&mut t);
     // long scripts: thousands of lent chunks, released on a small stack
     for (n, stack) in [(2_000usize, 64 * 1024usize), (12_000, 256 * 1024)] {
         t.ctx.tick();
